@@ -544,6 +544,32 @@ impl Service<Request<Bytes>> for Counting {
     }
 }
 
+/// A wrapped service that exerts back-pressure: not ready until the gate opens (the limiter must
+/// not bank permits for requests it cannot hand over yet and release them all at once).
+#[derive(Clone)]
+struct GatedCounting {
+    inner: Counting,
+    open: Arc<std::sync::atomic::AtomicBool>,
+    wakers: Arc<Mutex<Vec<std::task::Waker>>>,
+}
+
+impl Service<Request<Bytes>> for GatedCounting {
+    type Response = Response<Bytes>;
+    type Error = Status;
+    type Future = BoxFuture<'static, Result<Response<Bytes>, Status>>;
+    fn poll_ready(&mut self, cx: &mut Context<'_>) -> Poll<Result<(), Status>> {
+        if self.open.load(std::sync::atomic::Ordering::SeqCst) {
+            Poll::Ready(Ok(()))
+        } else {
+            self.wakers.lock().unwrap().push(cx.waker().clone());
+            Poll::Pending
+        }
+    }
+    fn call(&mut self, req: Request<Bytes>) -> Self::Future {
+        self.inner.call(req)
+    }
+}
+
 /// (i) exact replay: every arrival pattern at "time 0" emitted by TLC, against a limiter whose
 /// period is an hour (so real time does not matter): verdicts must match exactly, a refusal must
 /// carry a positive wait-nanos hint no longer than burst x period, a refused request must not
@@ -580,12 +606,13 @@ pub fn replay_rate(a: &Args) -> i32 {
                     }
                 }
                 Err(s) => {
-                    let hint = s.headers().get(WAIT_NANOS_HEADER).and_then(|v| v.parse::<u128>().ok());
+                    let status = s.status();
+                    let hint = wire_hint(s);
                     let ok_hint = matches!(hint, Some(h) if h > 0 && h <= period.as_nanos() * burst as u128);
-                    if want || reached || s.status() != StatusCode::TooManyRequests || !ok_hint {
+                    if want || reached || status != StatusCode::TooManyRequests || !ok_hint {
                         fail = Some(format!(
                             "step {si}: key {key} refused with status {:?} hint {hint:?} reached={reached}, specification says admit={want}",
-                            s.status()
+                            status
                         ));
                     }
                 }
@@ -644,8 +671,9 @@ pub fn replay_rate(a: &Args) -> i32 {
                             let rid = key * 1000 + i;
                             let lo = epoch.elapsed().as_micros();
                             let res = svc.call(request(rid, key)).await;
-                            let hint = res.as_ref().err().and_then(|s| s.headers().get(WAIT_NANOS_HEADER).and_then(|v| v.parse::<u128>().ok()));
-                            (key, rid, lo, res.is_ok(), hint)
+                            let ok = res.is_ok();
+                            let hint = res.err().and_then(wire_hint);
+                            (key, rid, lo, ok, hint)
                         }));
                     }
                 }
@@ -775,11 +803,110 @@ pub fn replay_rate(a: &Args) -> i32 {
             mismatches.push(json!({"what": format!("Block mode, burst {b}: {parked_done} of peer 1's {} simultaneous requests got through, quota allows exactly {b}", b + 2)}));
         }
     }
+    // back-pressure: the wrapped service is not ready for a while. Whatever the layer does with
+    // that, the instants at which requests enter the wrapped service obey the quota
+    for k in 0..4u64 {
+        let block = k % 2 == 0;
+        let period_ms = 100u64;
+        let quota = governor::Quota::with_period(std::time::Duration::from_millis(period_ms)).unwrap();
+        let gated = GatedCounting { inner: Counting::default(), open: Default::default(), wakers: Default::default() };
+        let layer = RateLimitLayer::new(quota, if block { RateWaitMode::Block } else { RateWaitMode::ReturnError });
+        ID_POS.store(k as usize * 3 + 17, std::sync::atomic::Ordering::Relaxed);
+        let epoch = std::time::Instant::now();
+        let g2 = gated.clone();
+        rt.block_on(async {
+            let mut hs = Vec::new();
+            for i in 0..5u64 {
+                let mut svc = layer.layer(g2.clone());
+                hs.push(tokio::spawn(async move {
+                    // ReturnError mode: the caller retries at quota pace
+                    tokio::time::sleep(std::time::Duration::from_millis(if block { 0 } else { i * (period_ms + 5) })).await;
+                    let _ = tokio::time::timeout(std::time::Duration::from_secs(3), svc.call(request(5000 + i, 1))).await;
+                }));
+            }
+            tokio::time::sleep(std::time::Duration::from_millis(5 * period_ms + 150)).await;
+            g2.open.store(true, std::sync::atomic::Ordering::SeqCst);
+            for w in g2.wakers.lock().unwrap().drain(..) {
+                w.wake();
+            }
+            for h in hs {
+                let _ = h.await;
+            }
+        });
+        evaluations += 1;
+        let mut entered: Vec<u64> = gated.inner.reached.lock().unwrap().iter().map(|(_, _, t)| t.duration_since(epoch).as_micros() as u64).collect();
+        entered.sort();
+        // sound form of the window bound on exact instants: entries i..j (inclusive) span at least (j - i - 1) periods
+        // (burst 1, plus the stale-state cell of the known finding)
+        let mut worst = None;
+        for i in 0..entered.len() {
+            for j in i + 1..entered.len() {
+                let need = (j - i).saturating_sub(1) as u64 * period_ms * 1000;
+                if entered[j] - entered[i] + 3_000 < need {
+                    worst = Some((i, j, entered[j] - entered[i]));
+                }
+            }
+        }
+        if let Some((i, j, span)) = worst {
+            mismatches.push(json!({"what": format!("{} mode, wrapped service not ready for 650 ms: requests entered it at {:?} us; entries {i}..{j} lie {span} us apart, the quota (1 per {period_ms} ms) needs {} us",
+                if block { "Block" } else { "ReturnError" }, entered, (j - i - 1) as u64 * period_ms * 1000)}));
+        }
+    }
+    // isolation under a backlog: peer 1 has a long queue of blocked requests; a request of peer 2
+    // that is one over peer 2's own burst waits for peer 2's own replenishment, not for peer 1's queue
+    for k in 0..a.u64("isolations", 6) / 2 {
+        let b = 1 + (k % 2) as u32;
+        let period_ms = 100u64;
+        let quota = governor::Quota::with_period(std::time::Duration::from_millis(period_ms)).unwrap()
+            .allow_burst(std::num::NonZeroU32::new(b).unwrap());
+        let counting = Counting::default();
+        let layer = RateLimitLayer::new(quota, RateWaitMode::Block);
+        ID_POS.store((k as usize) * 13 + 4, std::sync::atomic::Ordering::Relaxed);
+        let took_ms = rt.block_on(async {
+            let mut noisy = Vec::new();
+            for i in 0..(b as u64 + 16) {
+                let mut svc = layer.layer(counting.clone());
+                noisy.push(tokio::spawn(async move { svc.call(request(3000 + i, 1)).await.is_ok() }));
+            }
+            tokio::time::sleep(std::time::Duration::from_millis(30)).await;
+            let t0 = std::time::Instant::now();
+            let mut quiet = Vec::new();
+            for i in 0..(b as u64 + 1) {
+                let mut svc = layer.layer(counting.clone());
+                quiet.push(tokio::spawn(async move { svc.call(request(4000 + i, 2)).await.is_ok() }));
+            }
+            for h in quiet {
+                let _ = tokio::time::timeout(std::time::Duration::from_secs(5), h).await;
+            }
+            let took = t0.elapsed().as_millis() as u64;
+            for h in noisy {
+                h.abort();
+            }
+            took
+        });
+        evaluations += 1;
+        // own replenishment: one period (two with the limiter's stale-state quirk the other way round); 700 ms is
+        // generous for a loaded machine, and far below peer 1's 1.6 s queue
+        if took_ms > period_ms + 600 {
+            mismatches.push(json!({"what": format!("Block mode, burst {b}, period {period_ms} ms: peer 1 has 16 requests queued; peer 2's {} requests (one over its burst) took {took_ms} ms, its own quota needs about {period_ms} ms", b + 1)}));
+        }
+    }
     let path = format!("{out}.ndjson");
     crate::trace::write_ndjson(std::path::Path::new(&path), &lines).unwrap();
     print_summary(&json!({"replayed": behaviours.len(), "evaluations": evaluations, "mismatches": mismatches,
                           "trace": path, "timed_runs": run_id}));
     0
+}
+
+/// The hint as the caller sees it: on the response the refusal status is turned into (the only
+/// thing that travels), not on the in-process Status value.
+fn wire_hint(s: Status) -> Option<u128> {
+    use anemo::types::response::IntoResponse;
+    let resp = s.into_response();
+    if resp.status() != StatusCode::TooManyRequests {
+        return None;
+    }
+    resp.headers().get(WAIT_NANOS_HEADER).and_then(|v| v.parse::<u128>().ok())
 }
 
 /// C19 probe: refusals whose wait-nanos hint is not positive. Uses short periods so that many
@@ -791,6 +918,7 @@ pub fn rate_hint_probe(a: &Args) -> i32 {
     let quota = governor::Quota::with_period(std::time::Duration::from_micros(period_us)).unwrap();
     let counting = Counting::default();
     let layer = RateLimitLayer::new(quota, RateWaitMode::ReturnError);
+    let t_start = std::time::Instant::now();
     let (zero, refused, admitted): (u64, u64, u64) = rt.block_on(async {
         let mut hs = Vec::new();
         for t in 0..6u64 {
@@ -802,7 +930,7 @@ pub fn rate_hint_probe(a: &Args) -> i32 {
                         Ok(_) => ad += 1,
                         Err(s) => {
                             r += 1;
-                            let hint = s.headers().get(WAIT_NANOS_HEADER).and_then(|v| v.parse::<u128>().ok());
+                            let hint = wire_hint(s);
                             if !matches!(hint, Some(h) if h > 0) {
                                 z += 1;
                             }
@@ -822,6 +950,47 @@ pub fn rate_hint_probe(a: &Args) -> i32 {
         }
         tot
     });
-    print_summary(&json!({"refused": refused, "admitted": admitted, "hint_not_positive": zero, "period_us": period_us}));
+    let elapsed_us = t_start.elapsed().as_micros() as u64;
+    // two peers, each saturating its own quota for the whole run: per peer at most burst (1) + 1 (the
+    // stale-state cell, see the known finding) + elapsed / period admissions
+    let allowed = 2 * (2 + elapsed_us / period_us);
+    print_summary(&json!({"refused": refused, "admitted": admitted, "hint_not_positive": zero, "period_us": period_us,
+                          "elapsed_us": elapsed_us, "allowed": allowed}));
+    0
+}
+
+
+/// C19 probe: a peer whose limiter state has gone stale (idle for several periods) sends a volley
+/// at one instant: the quota's burst may get through, and nothing more until a period has passed.
+pub fn rate_stale_probe(a: &Args) -> i32 {
+    let rt = tokio::runtime::Builder::new_current_thread().enable_all().build().unwrap();
+    let mut rows = Vec::new();
+    for b in [1u32, 2, 3] {
+        let period_ms = a.u64("period_ms", 60);
+        let quota = governor::Quota::with_period(std::time::Duration::from_millis(period_ms)).unwrap()
+            .allow_burst(std::num::NonZeroU32::new(b).unwrap());
+        let counting = Counting::default();
+        let layer = RateLimitLayer::new(quota, RateWaitMode::ReturnError);
+        ID_POS.store(b as usize * 9, std::sync::atomic::Ordering::Relaxed);
+        let (fresh, stale) = rt.block_on(async {
+            let mut svc = layer.layer(counting.clone());
+            let mut fresh = 0u32;
+            for i in 0..(b + 3) {
+                if svc.call(request(100 + i as u64, 1)).await.is_ok() { fresh += 1; }
+            }
+            // idle for many periods: the peer's state is stale
+            tokio::time::sleep(std::time::Duration::from_millis(period_ms * 6)).await;
+            let t0 = std::time::Instant::now();
+            let mut stale = 0u32;
+            for i in 0..(b + 3) {
+                if svc.call(request(200 + i as u64, 1)).await.is_ok() { stale += 1; }
+            }
+            // (if the volley itself took longer than a period the count means nothing)
+            if t0.elapsed() >= std::time::Duration::from_millis(period_ms / 2) { stale = u32::MAX; }
+            (fresh, stale)
+        });
+        rows.push(json!({"burst": b, "fresh_admitted": fresh, "stale_admitted": stale}));
+    }
+    print_summary(&json!({"rows": rows}));
     0
 }
